@@ -34,6 +34,21 @@ def handle (line : String) : String :=
     match ofHex pw, ofHex salt, iters.toNat?, dk.toNat? with
     | some pw, some salt, some iters, some dk => toHex (pbkdf2Sha512 pw salt iters dk)
     | _, _, _, _ => "bad-op"
+  | ["md5", a] => hex1 (fun x => toHex (md5 x)) a
+  | ["crc32", a] => hex1 (fun x => toString (crc32 x)) a
+  | ["modpow", b, e, m] =>
+    match b.toNat?, e.toNat?, m.toNat? with
+    | some b, some e, some m => toString (modPow b e m)
+    | _, _, _ => "bad-op"
+  | ["natofbe", a] => hex1 (fun x => toString (natOfBE x)) a
+  | ["nattobe", len, n] =>
+    match len.toNat?, n.toNat? with
+    | some len, some n => toHex (natToBE len n)
+    | _, _ => "bad-op"
+  | ["nattobemin", n] =>
+    match n.toNat? with
+    | some n => toHex (natToBEMin n)
+    | none => "bad-op"
   | _ => "bad-op"
 
 def main (args : List String) : IO Unit :=
